@@ -75,6 +75,10 @@ def build_env(o, base, how, name="ca"):
         return m.Environment(name="e", base_dir=base, repos=[m.ConfigurationRepository(name="r", clusters={name: ctor_cluster(o, base, name)})])
     if how == "dict":
         return m.Environment(config={"name": "e", "base_dir": base, "repos": [{"name": "r", "clusters": {name: cluster_dict(o, base, name)}}]})
+    if how == "dict-reused":  # the same configuration object had been used to build an environment before
+        cfgd = {"name": "e", "base_dir": base, "repos": [{"name": "r", "clusters": {name: cluster_dict(o, base, name)}}]}
+        m.Environment(config=cfgd)
+        return m.Environment(config=cfgd)
     cfg = os.path.join(base, "cfg")
     os.makedirs(cfg, exist_ok=True)
     if how == "json":
@@ -292,14 +296,22 @@ def priority_case(args):
     """Repository priority: first repository defining the name wins; also after prepend / append."""
     import twosigma.memento as m
 
-    repos_spec, later = args  # repos_spec: tuple of tuples of cluster names; later: (op, names) or None
+    repos_spec, later = args[:2]  # repos_spec: tuple of tuples of cluster names; later: (op, names) or None
+    alias = args[2] if len(args) > 2 else None  # the clusters' own name field differs from the key they are registered under
     top = scratch_dir("c18p")
     out = {"evaluations": 1, "states": 1, "transitions": 1, "traces": 1, "violations": [], "outcomes": []}
     try:
         base_o = {"type": "filesystem", "meta": False, "cache": None, "readonly": None, "runner": None}
 
+        def cname(n):
+            if alias == "suffix":
+                return n + "_own"
+            if alias == "swap":
+                return {"ca": "cb", "cb": "ca"}.get(n, n)
+            return n
+
         def mkrepo(i, names):
-            return m.ConfigurationRepository(name="r%d" % i, clusters={n: ctor_cluster(base_o, os.path.join(top, "r%d_%s" % (i, n)), n) for n in names})
+            return m.ConfigurationRepository(name="r%d" % i, clusters={n: ctor_cluster(base_o, os.path.join(top, "r%d_%s" % (i, n)), cname(n)) for n in names})
 
         repos = [mkrepo(i, names) for i, names in enumerate(repos_spec)]
         env = m.Environment(name="e", base_dir=top, repos=list(repos))
@@ -322,14 +334,14 @@ def priority_case(args):
             got = env.get_cluster(n)
             if (got is None) != (want_i is None):
                 out["violations"].append(("priority|%s|presence" % ("after-" + later[0] if later else "static"),
-                                          "get_cluster(%s) = %r, expected %s (repos %s, then %s)" % (n, got, "a cluster" if want_i is not None else None, repos_spec, later), {"priority": [repos_spec, later]}))
+                                          "get_cluster(%s) = %r, expected %s (repos %s, then %s)" % (n, got, "a cluster" if want_i is not None else None, repos_spec, later), {"priority": [repos_spec, later, alias]}))
                 break
             if got is None:
                 continue
             want_cluster = repos[want_i].clusters[n]
             if got is not want_cluster:
                 out["violations"].append(("priority|%s|wrong-repository" % ("after-" + later[0] if later else "static"),
-                                          "get_cluster(%s) resolves to a lower-priority repository (repos %s, then %s)" % (n, repos_spec, later), {"priority": [repos_spec, later]}))
+                                          "get_cluster(%s) resolves to a lower-priority repository (repos %s, then %s)" % (n, repos_spec, later), {"priority": [repos_spec, later, alias]}))
                 break
             # behavioural: the call lands in the first repository's store
             m.Environment.set(env)
@@ -339,14 +351,14 @@ def priority_case(args):
             idx = 9 if (later and want_i == len(repos) - 1) else want_i
             if not os.path.isdir(os.path.join(top, "r%d_%s" % (idx, n), "d")):
                 out["violations"].append(("priority|%s|stored-elsewhere" % ("after-" + later[0] if later else "static"),
-                                          "a call in cluster %s did not store into the first repository defining it" % n, {"priority": [repos_spec, later]}))
+                                          "a call in cluster %s did not store into the first repository defining it" % n, {"priority": [repos_spec, later, alias]}))
                 break
         # dump and rebuild keeps the resolution
         env2 = m.Environment(config=env.to_dict())
         for n in ("ca", "cb", "cz"):
             a, b = env.get_cluster(n), env2.get_cluster(n)
             if (a is None) != (b is None) or (a is not None and a.storage.to_dict() != b.storage.to_dict()):
-                out["violations"].append(("priority|rebuild|resolution-differs", "rebuilt environment resolves %s differently" % n, {"priority": [repos_spec, later]}))
+                out["violations"].append(("priority|rebuild|resolution-differs%s" % ("|name-field-differs-from-key" if alias else ""), "rebuilt environment resolves %s differently" % n, {"priority": [repos_spec, later, alias]}))
                 break
         out["outcomes"].append("prio|%s|%s" % (repos_spec, later))
     finally:
@@ -357,10 +369,10 @@ def priority_case(args):
 def run(ctx):
     ctx.rule = ("options: storage type x metadata_path x memory_cache_mb x readonly {absent, false, true} x runner {absent, local, null} "
                 "(%d combinations) x supplied as inline dict / JSON files / YAML with a template parameter, each compared by behavioural "
-                "probes with the constructor-built twin, then dumped and rebuilt; 9 explicit-argument overrides (each also dumped and rebuilt); repository lists of "
+                "probes with the constructor-built twin, then dumped and rebuilt; 9 explicit-argument overrides (each also dumped and rebuilt); repository lists (clusters registered under their own name, or under a key that differs from their name field) of "
                 "length 1..3 over cluster-name subsets in every order, also with a prepend / append after a first resolution. "
                 "distinct = (options, supply form) / overrides / repository lists." % len(options()))
-    tasks = [(o, how) for o in options() for how in ("dict", "json", "yaml")]
+    tasks = [(o, how) for o in options() for how in ("dict", "dict-reused", "json", "yaml")]
     a = option_case(tasks[5])
     b = option_case(tasks[5])
     ctx.selfcheck("one case gives identical observations twice", a["violations"] == b["violations"])
@@ -371,6 +383,8 @@ def run(ctx):
     for n in (1, 2, 3):
         for spec in itertools.product(subsets, repeat=n):
             ptasks.append((spec, None))
+            ptasks.append((spec, None, "suffix"))
+            ptasks.append((spec, None, "swap"))
             if n <= 2:
                 for op in ("prepend", "append"):
                     for names in subsets[1:]:
@@ -391,7 +405,7 @@ def replay(ctx, art):
     else:
         spec = tuple(tuple(x) for x in a["priority"][0])
         later = a["priority"][1]
-        r = priority_case((spec, (later[0], tuple(later[1])) if later else None))
+        r = priority_case((spec, (later[0], tuple(later[1])) if later else None) + ((a["priority"][2],) if len(a["priority"]) > 2 else ()))
     for v in r["violations"]:
         print(v[0], "\n", v[1])
     print("REPLAY property=C18 result=%s" % bool(r["violations"]))
